@@ -299,6 +299,13 @@ func (k Keeper) ComputeConsumerNextValSet(
 		}
 	}
 
+	// if inactive validators are not allowed, the candidates are exactly the provider's active validators;
+	// re-deriving them from the tokens of the bonded validators could select a validator that is not in the
+	// provider's consensus set when voting powers tie at the MaxProviderConsensusValidators boundary
+	if !powerShapingParameters.AllowInactiveVals {
+		bondedValidators = append([]stakingtypes.Validator{}, activeValidators...)
+	}
+
 	// need to use the bondedValidators, not activeValidators, here since the chain might be opt-in and allow inactive vals
 	nextValidators, err := k.ComputeNextValidators(ctx, consumerId, bondedValidators, powerShapingParameters, minPower)
 	if err != nil {
